@@ -290,4 +290,10 @@ func init() {
 		"	} else if g.authority >= g.region.curr.authority {", "	} else if g.authority >= g.region.curr.authority || g.authority == control.AuthorityAbsolute {", "C05.R6.decide")
 	mut("C05", "OpenGate opens a fresh region although one overlapped when the transfer is empty", "cesium/internal/control/controller.go",
 		"	if exists {\n		return g, t, err\n	}", "	if exists && t.Occurred() {\n		return g, t, err\n	}", "C05.R6.decide")
+	mut("C09", "oversize writers are hard-closed even when in use", "cesium/internal/domain/file_controller.go",
+		"		if s.Size() >= int64(fc.FileSize) && w.tryAcquire() {", "		if s.Size() >= int64(fc.FileSize) || w.tryAcquire() {", "C09.HARDCLOSE")
+	mut("C09", "gcReaders closes readers it could not acquire", "cesium/internal/domain/file_controller.go",
+		"				if !r.tryAcquire() {\n					// If file is held by someone else, we can't gc.\n					return true\n				}", "				_ = r.tryAcquire()", "C09.HARDCLOSE")
+	mut("C09", "a small enough file's writer is handed out without being acquired", "cesium/internal/domain/file_controller.go",
+		"		if size < int64(fc.FileSize) && w.tryAcquire() {", "		if size < int64(fc.FileSize)/2 || w.tryAcquire() {", "C09.HARDCLOSE")
 }
